@@ -94,6 +94,10 @@ def summarize(model, cls):
 def construct(cls, G, kw):
     import flowpaths as fp
 
+    # MinFlowDecomp's subgraph scanning only runs on graphs with more than 20 nodes (class constants 20/18); the histories use
+    # 5-node graphs, so the window is reduced - identically in the history and in the pristine reference process
+    fp.MinFlowDecomp.subgraph_lowerbound_size, fp.MinFlowDecomp.subgraph_lowerbound_shift = 2, 1
+
     try:
         return None, getattr(fp, cls)(G, **kw)
     except BaseException as e:  # noqa: BLE001
